@@ -35,6 +35,7 @@ class Check:
 
     def __init__(self, tier, seed):
         self.tier, self.seed = tier, seed
+        vlib.STREAM_TIMEOUT = 420 if tier == "quick" else 3 * 3600
         self.wd = vlib.workdir(self.pid)
         self.features = {}
         self.samples = []
@@ -260,7 +261,7 @@ class C01(Check):
         feats = sm.group(4).split(",") if sm and sm.group(4) else []
         feats = [f for f in feats if f]
         key = req if feats else None
-        if impl in ("panic", "crash"):
+        if impl in ("panic", "crash", "timeout"):
             return corr, f"move generation crashes on {req.split(chr(9))[1]}", feats, key
         im = MOVES_RE.match(impl)
         if not im or not sm:
@@ -325,7 +326,7 @@ class PlayCheck(Check):
             else:
                 code = o.split(":")[1]
                 feats.add({"0": "quiet", "1": "capture", "4": "castle", "5": "enpassant"}.get(code, "promotion"))
-        if impl in ("panic", "crash"):
+        if impl in ("panic", "crash", "timeout"):
             return corr, f"make/unmake crashes: {req[:300]}", feats, req
         istates = [kv(x) for x in impl.split(" ; ")]
         sstates = [kv(x) for x in spec.split(" ; ")]
@@ -504,7 +505,7 @@ class C06(Check):
         feats = [kind]
         oracle = None
         if kind == "fen":
-            if impl in ("panic", "crash"):
+            if impl in ("panic", "crash", "timeout"):
                 oracle = f"FEN reader crashes on {text!r}"
             elif impl.startswith("ok "):
                 feats.append("accepted")
@@ -536,7 +537,7 @@ class C06(Check):
         elif kind == "fenrt":
             # text is the canonical FEN of a legal position (written by the rules-side writer);
             # impl: strict-reader(text) -> engine writer -> engine reader
-            if impl in ("panic", "crash"):
+            if impl in ("panic", "crash", "timeout"):
                 oracle = f"FEN writer/reader crashes on {text!r}"
             else:
                 m = re.match(r"W=(.*?) G0=(.*?) G1=(.*)$", impl)
@@ -597,7 +598,7 @@ class C19(Check):
                 if abs(int(a[3]) - int(b[3])) > 1:
                     corr = f"fill indicator {a[3]} vs exact {b[3]}"
         feats = set()
-        if impl in ("panic", "crash"):
+        if impl in ("panic", "crash", "timeout"):
             return corr, f"transposition table crashes: {req[:300]}", feats, req
         toks = TT_TOK.findall(impl)
         if len(toks) != len(ops):
@@ -707,7 +708,7 @@ class C14(Check):
         mine = f[2] if side == "w" else f[3]
         mtg, movetime, oh = f[6], f[7], int(f[8])
         feats = set()
-        if impl in ("panic", "crash"):
+        if impl in ("panic", "crash", "timeout"):
             return ("model does not panic" if model != "panic" else None), f"time allocation crashes on {req!r}", feats, req
         di, dm = kv(impl), kv(model)
         si, hi = int(di["soft"]), int(di["hard"])
@@ -854,7 +855,7 @@ class C16(Check):
         feats = {f[0]}
         oracle = None
         key = None
-        if impl in ("panic", "crash"):
+        if impl in ("panic", "crash", "timeout"):
             return corr, f"evaluation crashes (overflow) on {req!r}", feats, req
         if f[0] == "evalpair":
             if spec == "mirror=DIFF" and corr is None:
@@ -892,14 +893,14 @@ class C20(Check):
 
     def streams(self):
         req = os.path.join(self.wd, "see.req")
-        vlib.gen_requests(["see", self.seed, self.n(1500, 60000), self.corpus_file("positions.fen")], req)
+        vlib.gen_requests(["see", self.seed, self.n(30000, 120000), self.corpus_file("positions.fen")], req)
         yield "see", req
 
     def judge(self, req, impl, model, spec):
         f = req.split("\t")
         corr = None if impl == model else f"SEE differs from the model in {f[1]}"
         feats = set()
-        if impl in ("panic", "crash"):
+        if impl in ("panic", "crash", "timeout"):
             return corr, f"SEE crashes in {f[1]}", feats, None
         items = dict(x.split("=") for x in impl.split()) if impl else {}
         sp = dict(x.split("=") for x in spec.split()) if spec not in ("-", "") else {}
@@ -959,7 +960,7 @@ class C18(Check):
         fen = f[1]
         corr = None if impl == model else f"SAN differs from the model in {fen}"
         feats = set()
-        if impl in ("panic", "crash"):
+        if impl in ("panic", "crash", "timeout"):
             return corr, f"SAN crashes in {fen}", feats, None
         items = [x.split("=", 1) for x in impl.split()] if impl else []
         sp = dict(x.split("=", 1) for x in spec.split()) if spec not in ("-", "") else {}
@@ -1030,7 +1031,7 @@ class C10(Check):
             feats.add("counter")
         if f[3] != "-" and f[3] in (f[4], f[5], f[6]):
             feats.add("hash=remembered")
-        if impl in ("panic", "crash") or impl.startswith("runaway"):
+        if impl in ("panic", "crash", "timeout") or impl.startswith("runaway"):
             return corr, f"move picker crashes or does not terminate: {req[:300]}", feats, req
         m = re.match(r"legal=\[(.*?)\] must=\[(.*?)\]", spec)
         if not m:
@@ -1139,6 +1140,8 @@ class SearchCheck(Check):
                 return f"search crashes: {req[:300]} -> {r.get('raw', r.get('bad', ''))[:200]}"
         if impl in ("crash", "panic"):
             return f"search crashes: {req[:300]}"
+        if impl == "timeout":
+            return f"search does not return within {vlib.STREAM_TIMEOUT} s (stream budget): {req[:300]}"
         return None
 
     def extra_requests(self, req_path, harness_bin):
@@ -1255,6 +1258,10 @@ class C04(SearchCheck):
         dw = 3 if self.tier == "quick" else 4
         for f in wide:
             lines.append(f"search\t1\t{f}||{dw}|0|0;{mirror(f)}||{dw}|0|0")
+        # the largest depth limit there is (u8::MAX, also the limit used when none is given): only dead-drawn
+        # positions let all 255 iterations complete
+        for f in ["8/8/8/4k3/8/4K3/8/8 w - - 0 1", "8/8/8/4k3/8/4KN2/8/8 b - - 0 1"]:
+            lines.append(f"search\t1\t{f}||255|0|0")
         with open(req_path) as f:
             body = f.read()
         with open(req_path, "w") as f:
@@ -1873,7 +1880,7 @@ class C17(UciCheck):
         corr = None if impl == model else f"move-list reader differs from the model on {text!r}: impl {impl[:120]} model {model[:120]}"
         oracle = None
         feats = ["ucimoves"]
-        if impl in ("panic", "crash"):
+        if impl in ("panic", "crash", "timeout"):
             oracle = f"move-list reader crashes on {text!r}"
         elif impl.startswith("ok ") and re.fullmatch(r"([a-h][1-8][a-h][1-8][nbrq]?)( [a-h][1-8][a-h][1-8][nbrq]?)*", text):
             feats.append("well-formed")
